@@ -156,11 +156,17 @@ def gen(tp, feat, tier='quick'):
                       [['M', tp.draw(1000)]]]]]]
         else:
             els = _gen_els(tp, 0)
+        def renumber(es):
+            # (the user changes an argument of the kept messages in place
+            # before sending the lists again)
+            return [['M', tp.draw(1000)] if e[0] == 'M'
+                    else ['B', e[1], renumber(e[2])] for e in es]
         at = 1
+        change = tp.draw(2) == 0
         for _ in range(2 + tp.draw(2)):
             at = at + tp.draw(len(body) - at + 1)
-            body.insert(at, ['bundle', tp.choice([None, 0, 0.125, 0.2]), els,
-                             'keep', 0])
+            body.insert(at, ['bundle', tp.choice([None, 0, 0.125, 0.2]),
+                             renumber(els) if change else els, 'keep', 0])
             at += 1
     return {'t0': T0, 'clocks': clocks, 'routines': routines}
 
@@ -298,6 +304,19 @@ def _gen_els(tp, depth):
 
 DRAW_KINDS = ['rand_f', 'rand_i', 'rand2', 'rrand', 'exprand', 'coin',
               'choice', 'linrand', 'bilinrand', 'sum3rand']
+
+
+def _shape(els):
+    return repr([e[0] if e[0] == 'M' else [e[1], _shape(e[2])] for e in els])
+
+
+def _update(objs, els):
+    """write the message arguments of the spec into the kept list objects"""
+    for o, e in zip(objs, els):
+        if e[0] == 'M':
+            o[2] = e[1]
+        else:
+            _update(o[1:], e[2])
 
 
 def mk_el(el, rid):
@@ -527,7 +546,9 @@ class Interp:
             els = [mk_el(e, rid) for e in st[2]]
             if len(st) > 3 and st[3] == 'keep':
                 # the user keeps the lists and sends the same objects again
-                els = self.kept.setdefault((rid, st[4], repr(st[2])), els)
+                kept = self.kept.setdefault((rid, st[4], _shape(st[2])), els)
+                _update(kept, st[2])
+                els = kept
             if len(st) > 3 and st[3] == 'bind':
                 self.send(rid, 'bundle', st[1], st[2],
                           lambda: self.bind_send(st[1], els))
